@@ -96,7 +96,7 @@ def random_events(rng):
             evs.append({"e": "str", "s": rng.choice(["", "m1", "m2", "bogus", "None"])})
         elif r < 0.35:
             evs.append({"e": "choose", "s": rng.choice(["m1", "m2", "None", "bogus"])})
-        elif r < 0.5 and not active:
+        elif r < 0.5 and (not active or rng.random() < 0.25):
             evs.append({"e": "start"})
             active = started = True
         elif r < 0.6:
